@@ -421,6 +421,276 @@ Proof.
       * intros f. rewrite <- Nat.add_assoc. cbn [app] in Hrun1 |- *. rewrite Hrun1. apply Hrun2.
 Qed.
 
+(* ---------- function-like invocation whose arguments are flat token lists ---------- *)
+Definition plain_arg (t : tok) : bool := negb (is_txt "," t) && negb (is_txt "(" t) && negb (is_txt ")" t).
+
+Fixpoint flat_more (more : list (tok * list tok)) : list tok :=
+  match more with [] => [] | (c, a) :: r => c :: a ++ flat_more r end.
+Definition more_ok (more : list (tok * list tok)) : Prop :=
+  Forall (fun ca => is_txt "," (fst ca) = true /\ forallb plain_arg (snd ca) = true) more.
+
+Notation collectM := (collect false).
+
+Lemma collect_arg a : forall pre tail p below ne,
+  forallb plain_arg a = true ->
+  exists pre', somes pre' = somes pre /\
+    forall f cur acc,
+      collectM (List.length a + f) None (st pre (a ++ tail) p below ne) acc cur 1
+      = collectM f None (st pre' tail p below ne) acc (cur ++ a) 1.
+Proof.
+  induction a as [|x a IH]; intros pre tail p below ne Hp.
+  - exists pre. split; [reflexivity|]. intros. cbn. now rewrite app_nil_r.
+  - cbn [forallb] in Hp. apply andb_true_iff in Hp. destruct Hp as [Hx Ha].
+    unfold plain_arg in Hx. rewrite !andb_true_iff, !negb_true_iff in Hx. destruct Hx as [[H1 H2] H3].
+    destruct (IH (pre ++ [None]) tail p below ne Ha) as (pre' & Hs & Hc).
+    exists pre'. split; [rewrite Hs, somes_app; cbn; now rewrite app_nil_r|].
+    intros f cur acc. cbn [List.length plus app collect]. rewrite L_cons, H1, H2, H3. cbn [andb].
+    rewrite Hc. now rewrite <- app_assoc.
+Qed.
+
+Lemma txt_excl s1 s2 t : is_txt s1 t = true -> s1 <> s2 -> is_txt s2 t = false.
+Proof.
+  unfold is_txt. intros H Hn. apply String.eqb_eq in H. apply String.eqb_neq. congruence.
+Qed.
+
+(* number of tokens of the argument part, closing parenthesis included *)
+Definition call_len (a : list tok) (more : list (tok * list tok)) : nat :=
+  S (List.length (a ++ flat_more more)).
+
+Lemma collect_flat more : forall pre a rp rest p below ne,
+  forallb plain_arg a = true -> more_ok more -> is_txt ")" rp = true ->
+  exists pre', somes pre' = somes pre /\
+    forall f cur acc,
+      collectM (call_len a more + f) None (st pre (a ++ flat_more more ++ rp :: rest) p below ne) acc cur 1
+      = XVal (acc ++ (cur ++ a) :: map snd more) (st pre' rest p below ne).
+Proof.
+  induction more as [|[c a2] r IH]; intros pre a rp rest p below ne Ha Hm Hr.
+  - destruct (collect_arg a pre (rp :: rest) p below ne Ha) as (pre1 & Hs1 & Hc1).
+    exists (pre1 ++ [None]). split; [rewrite somes_app, Hs1; cbn; now rewrite app_nil_r|].
+    intros f cur acc. unfold call_len. cbn [flat_more app map]. rewrite app_nil_r.
+    replace (S (List.length a) + f) with (List.length a + S f) by lia.
+    rewrite Hc1. cbn [collect]. rewrite L_cons.
+    rewrite (txt_excl ")" "," rp Hr) by discriminate. rewrite (txt_excl ")" "(" rp Hr) by discriminate.
+    rewrite Hr. cbn [andb Nat.eqb]. reflexivity.
+  - inversion Hm as [|ca r' [Hc Ha2] Hm']; subst. cbn [fst snd] in Hc, Ha2.
+    destruct (collect_arg a pre (c :: a2 ++ flat_more r ++ rp :: rest) p below ne Ha) as (pre1 & Hs1 & Hc1).
+    destruct (IH (pre1 ++ [None]) a2 rp rest p below ne Ha2 Hm' Hr) as (pre2 & Hs2 & Hc2).
+    exists pre2. split; [rewrite Hs2, somes_app, Hs1; cbn; now rewrite app_nil_r|].
+    intros f cur acc. unfold call_len. cbn [flat_more map].
+    replace (S (List.length (a ++ c :: a2 ++ flat_more r)) + f)
+      with (List.length a + S (call_len a2 r + f)).
+    2:{ unfold call_len. rewrite !app_length. cbn [List.length]. rewrite app_length. lia. }
+    replace (a ++ (c :: a2 ++ flat_more r) ++ rp :: rest) with (a ++ c :: a2 ++ flat_more r ++ rp :: rest).
+    2:{ cbn [app]. now rewrite <- app_assoc. }
+    rewrite Hc1. cbn [collect]. rewrite L_cons, Hc. cbn [andb Nat.eqb].
+    rewrite Hc2. cbn [app]. now rewrite <- app_assoc.
+Qed.
+
+(* ---------- pre-expansion of the arguments: nested frames ---------- *)
+Lemma R_end_pre f pre below ne : runM (S f) (st pre [] true below ne) = Ok (st pre [] true below ne).
+Proof.
+  cbn [run]. unfold peek_tok_pop, norm, st. cbn [x_stack x_noexp].
+  destruct below; cbn [norm_top]; rewrite eol_nil; reflexivity.
+Qed.
+
+Notation callM := (call_with None max_level).
+Notation preM := (pre_with None max_level).
+
+Lemma inv_None ne d : inv ne d -> inv (None :: ne) d.
+Proof. unfold inv. cbn [somes]. tauto. Qed.
+
+Lemma call_ok d a stack ne :
+  forallb okt2 a = true -> inv ne d -> S (List.length stack) + d < max_level ->
+  exists n, forall f, n <= f ->
+    callM (runM f) a (mkX stack ne) = Ok (flat_map (E d (None :: ne)) a, mkX stack ne).
+Proof.
+  intros Hok Hinv Hlev. unfold call_with. cbn [x_stack x_noexp].
+  replace (Nat.leb max_level (List.length stack)) with false by (symmetry; apply Nat.leb_gt; lia).
+  destruct a as [|t a]; [exists 0; reflexivity|].
+  destruct (scan_all d (t :: a) [] [] true stack (None :: ne) Hok (inv_None _ _ Hinv) Hlev) as (n & pre' & Hs & Hrun).
+  rewrite app_nil_r in Hrun.
+  exists (S n). intros f Hf. replace f with (n + S (f - S n)) by lia.
+  change (mkX (mkH (map Some (t :: a)) 0 true :: stack) (None :: ne)) with (st [] (t :: a) true stack (None :: ne)).
+  rewrite Hrun, R_end_pre. unfold st, top_of. cbn [x_stack x_noexp h_toks tl map]. rewrite app_nil_r, Hs. reflexivity.
+Qed.
+
+Definition needs (m : macro) (i : nat) : bool := match nth_error (m_need m) i with Some b => b | None => true end.
+Fixpoint ias_of (d : nat) (ne : list (option string)) (m : macro) (i : nat) (al : list (list tok)) : list iarg :=
+  match al with
+  | [] => []
+  | a :: ar => (a, if needs m i then Some (flat_map (E d (None :: ne)) a) else None) :: ias_of d ne m (S i) ar
+  end.
+
+Lemma pre_ok d al : forall i stack ne m,
+  Forall (fun a => forallb okt2 a = true) al -> inv ne d -> S (List.length stack) + d < max_level ->
+  exists n, forall f, n <= f ->
+    preM (runM f) m i al (mkX stack ne) = Ok (ias_of d ne m i al, mkX stack ne).
+Proof.
+  induction al as [|a ar IH]; intros i stack ne m Hall Hinv Hlev.
+  - exists 0. reflexivity.
+  - inversion Hall as [|x l Ha Har]; subst.
+    destruct (IH (S i) stack ne m Har Hinv Hlev) as (n2 & H2).
+    destruct (call_ok d a stack ne Ha Hinv Hlev) as (n1 & H1).
+    exists (n1 + n2). intros f Hf. cbn [pre_with ias_of]. fold (needs m i).
+    destruct (needs m i).
+    + rewrite H1 by lia. rewrite H2 by lia. reflexivity.
+    + rewrite H2 by lia. reflexivity.
+Qed.
+
+Lemma peek_down_st pre x r p below ne : peek_down (x_stack (st pre (x :: r) p below ne)) = Some x.
+Proof. unfold st. cbn [x_stack]. apply peek_down_top. Qed.
+
+(* ---------- one invocation ---------- *)
+Lemma R_call d pre t lp a more rp rest p below ne m repl :
+  is_id t = true -> is_txt "defined" t = false -> (negb (tx t) || in_noexp (tt t) ne) = false ->
+  get_macro tb (tt t) = Some m -> m_fun m = true -> m_variadic m = false ->
+  is_txt "(" lp = true -> forallb plain_arg a = true -> more_ok more -> is_txt ")" rp = true ->
+  Forall (fun x => forallb okt2 x = true) (a :: map snd more) ->
+  inv ne d -> S (S (List.length below)) + d < max_level ->
+  replace_fun lead cat_fix str_white resub_fix va_fix m (ias_of d ne m 0 (a :: map snd more)) = Ok repl ->
+  exists n pre', somes pre' = somes pre /\
+    forall f, n <= f ->
+      runM (S f) (st pre (t :: lp :: a ++ flat_more more ++ rp :: rest) p below ne)
+      = runM f (st [] (set_w_hd (tw t) repl) false (top_of pre' rest p :: below) (Some (m_name m) :: ne)).
+Proof.
+  intros Hid Hd Hh Hm Hf Hv Hlp Ha Hmore Hrp Hall Hinv Hlev Hrepl.
+  destruct (collect_flat more ((pre ++ [None]) ++ [None]) a rp rest p below ne Ha Hmore Hrp) as (pre' & Hs & Hc).
+  destruct (pre_ok d (a :: map snd more) 0 (top_of pre' rest p :: below) ne m Hall Hinv) as (n1 & H1).
+  { cbn [List.length]. lia. }
+  exists (call_len a more + n1), pre'. split.
+  { rewrite Hs, !somes_app. cbn. now rewrite !app_nil_r. }
+  intros f Hfuel. cbn [run]. rewrite L_peek, Hid. cbn [negb]. rewrite L_cons, Hd.
+  unfold st at 1. cbn [x_noexp]. rewrite Hh, Hm, Hf. rewrite peek_down_st, Hlp. rewrite L_cons.
+  rewrite Hv, andb_false_r.
+  replace f with (call_len a more + (f - call_len a more)) at 1 by lia.
+  rewrite (Hc (f - call_len a more) [] []). cbn [app].
+  unfold st at 1. rewrite (H1 f) by lia.
+  rewrite Hrepl. unfold push. cbn [x_stack x_noexp List.length].
+  replace (Nat.leb max_level (S (S (List.length below)))) with false by (symmetry; apply Nat.leb_gt; lia).
+  reflexivity.
+Qed.
+
+(* ---------- source lists with invocations ---------- *)
+Lemma norm_pop' pre1 pre0 r p below ne name :
+  norm false (st pre1 [] false (top_of pre0 r p :: below) (name :: ne))
+  = norm false (st (map Some (somes pre0 ++ somes pre1)) r p below ne).
+Proof.
+  unfold norm, st. cbn [x_stack x_noexp norm_top]. rewrite eol_nil.
+  replace (h_pre (top_of pre1 [] false)) with false by reflexivity. cbn [tl].
+  f_equal. unfold splice, top_of. cbn [h_toks h_pos h_pre map].
+  rewrite app_nil_r. rewrite firstn_len_app, skipn_len_app, somes_map_Some.
+  rewrite !map_app, !app_length, !map_length. rewrite <- app_assoc. reflexivity.
+Qed.
+
+Inductive sitem :=
+| SToks (l : list tok)
+| SCall (t lp : tok) (a : list tok) (more : list (tok * list tok)) (rp : tok).
+Definition stoks (i : sitem) : list tok :=
+  match i with
+  | SToks l => l
+  | SCall t lp a more rp => t :: lp :: a ++ flat_more more ++ [rp]
+  end.
+
+Definition call_out (d : nat) (ne : list (option string)) (t : tok) (a : list tok) (more : list (tok * list tok)) : list tok :=
+  match get_macro tb (tt t) with
+  | Some m =>
+      match replace_fun lead cat_fix str_white resub_fix va_fix m (ias_of (S d) ne m 0 (a :: map snd more)) with
+      | Ok repl => flat_map (E d (Some (m_name m) :: ne)) (set_w_hd (tw t) repl)
+      | Err _ => []
+      end
+  | None => []
+  end.
+Definition item_out (d : nat) (ne : list (option string)) (i : sitem) : list tok :=
+  match i with
+  | SToks l => EI (S d) ne l
+  | SCall t _ a more _ => call_out d ne t a more
+  end.
+
+Definition wf_sitem (d : nat) (ne : list (option string)) (i : sitem) : Prop :=
+  match i with
+  | SToks l => wfd l = true
+  | SCall t lp a more rp =>
+      is_id t = true /\ is_txt "defined" t = false /\ (negb (tx t) || in_noexp (tt t) ne) = false /\
+      is_txt "(" lp = true /\ forallb plain_arg a = true /\ more_ok more /\ is_txt ")" rp = true /\
+      Forall (fun x => forallb okt2 x = true) (a :: map snd more) /\
+      exists m repl, get_macro tb (tt t) = Some m /\ m_fun m = true /\ m_variadic m = false /\
+        replace_fun lead cat_fix str_white resub_fix va_fix m (ias_of (S d) ne m 0 (a :: map snd more)) = Ok repl /\
+        forallb okt2 (set_w_hd (tw t) repl) = true
+  end.
+
+Lemma inv_up ne d : inv ne d -> inv ne (S d).
+Proof. unfold inv. intros (H1 & H2 & H3). repeat split; try assumption. lia. Qed.
+
+Lemma scan_src d items : forall rest pre p below ne,
+  Forall (wf_sitem d ne) items -> inv ne (S d) -> S (S (S (List.length below))) + d < max_level ->
+  exists n m pre', somes pre' = somes pre ++ flat_map (item_out d ne) items /\
+    forall f, m <= f ->
+      runM (n + f) (st pre (flat_map stoks items ++ rest) p below ne) = runM f (st pre' rest p below ne).
+Proof.
+  induction items as [|i items IH]; intros rest pre p below ne Hwf Hinv Hlev.
+  - exists 0, 0, pre. cbn. rewrite app_nil_r. split; [reflexivity|]. reflexivity.
+  - inversion Hwf as [|x l Hi Hitems]; subst.
+    cbn [flat_map]. rewrite <- app_assoc.
+    destruct i as [l|t lp a more rp].
+    + (* plain tokens and defined forms *)
+      cbn [wf_sitem stoks item_out] in *.
+      destruct (scan_items (S d) (List.length l) l (flat_map stoks items ++ rest) pre p below ne (le_n _) Hi Hinv)
+        as (n1 & pre1 & Hs1 & Hrun1); [lia|].
+      destruct (IH rest pre1 p below ne Hitems Hinv Hlev) as (n2 & m2 & pre' & Hs2 & Hrun2).
+      exists (n1 + n2), m2, pre'. split; [rewrite Hs2, Hs1; now rewrite <- app_assoc|].
+      intros f Hf. rewrite <- Nat.add_assoc, Hrun1. now apply Hrun2.
+    + (* an invocation *)
+      cbn [wf_sitem stoks item_out] in *.
+      destruct Hi as (Hid & Hd & Hh & Hlp & Ha & Hmore & Hrp & Hall & m & repl & Hm & Hf & Hv & Hrepl & Hokr).
+      destruct (Hobj _ _ Hm) as (Hname & _).
+      assert (Hnh : in_noexp (tt t) ne = false).
+      { apply orb_false_iff in Hh. tauto. }
+      assert (Hinv' : inv (Some (m_name m) :: ne) d).
+      { rewrite Hname. apply inv_push; [assumption|assumption|]. eapply get_macro_In, Hm. }
+      destruct (R_call (S d) pre t lp a more rp (flat_map stoks items ++ rest) p below ne m repl
+                  Hid Hd Hh Hm Hf Hv Hlp Ha Hmore Hrp Hall Hinv) as (n0 & pre0 & Hs0 & Hrun0); [lia|assumption|].
+      destruct (scan_all d (set_w_hd (tw t) repl) [] [] false (top_of pre0 (flat_map stoks items ++ rest) p :: below)
+                  (Some (m_name m) :: ne) Hokr Hinv') as (n1 & pre1 & Hs1 & Hrun1).
+      { cbn [List.length]. lia. }
+      rewrite app_nil_r in Hrun1.
+      destruct (IH rest (map Some (somes pre0 ++ somes pre1)) p below ne Hitems Hinv Hlev) as (n2 & m2 & pre' & Hs2 & Hrun2).
+      exists (S (n1 + n2)), (n0 + m2), pre'. split.
+      * rewrite Hs2, somes_map_Some, Hs0, Hs1. unfold call_out. rewrite Hm, Hrepl. cbn [app]. now rewrite <- app_assoc.
+      * intros f Hfl. replace (S (n1 + n2) + f) with (S (n1 + (n2 + f))) by lia.
+        cbn [app]. replace ((a ++ flat_more more ++ [rp]) ++ flat_map stoks items ++ rest)
+          with (a ++ flat_more more ++ rp :: flat_map stoks items ++ rest).
+        2:{ rewrite <- !app_assoc. reflexivity. }
+        rewrite Hrun0 by lia. rewrite Hrun1.
+        rewrite (R_norm _ _ _ (norm_pop' pre1 pre0 _ p below ne _)). apply Hrun2. lia.
+Qed.
+
+Lemma empty_src d ne items : flat_map stoks items = [] -> flat_map (item_out d ne) items = [].
+Proof.
+  induction items as [|i items IH]; [reflexivity|]. cbn [flat_map]. intros H.
+  apply app_eq_nil in H. destruct H as [Hi Hr]. rewrite (IH Hr), app_nil_r.
+  destruct i as [l|t lp a more rp]; cbn [stoks] in Hi; [subst l; reflexivity|discriminate].
+Qed.
+
+Theorem expand_src items :
+  Forall (wf_sitem (Nat.pred (List.length names)) [None]) items ->
+  List.length names <> 0 -> S (S (List.length names)) < max_level ->
+  exists n, forall fuel, n <= fuel ->
+    expand lead cat_fix str_white resub_fix None false va_fix va_whole max_level tb fuel (flat_map stoks items)
+    = Ok (flat_map (item_out (Nat.pred (List.length names)) [None]) items).
+Proof.
+  intros Hwf Hnz Hlev.
+  destruct (scan_src (Nat.pred (List.length names)) items [] [] false [] [None] Hwf) as (n & m & pre' & Hs & Hrun).
+  { repeat split; cbn [somes]; [constructor|intros x []|cbn; lia]. }
+  { cbn [List.length]. lia. }
+  rewrite app_nil_r in Hrun.
+  exists (S (n + m)). intros fuel Hf. unfold expand. destruct (flat_map stoks items) as [|t r] eqn:Et.
+  { now rewrite (empty_src _ _ items Et). }
+  replace (Nat.leb max_level 0) with false by (symmetry; apply Nat.leb_gt; lia).
+  replace fuel with (n + (S (fuel - S n))) by lia.
+  change (mkX [mkH (map Some (t :: r)) 0 false] [None]) with (st [] (t :: r) false [] [None]).
+  rewrite Hrun by lia. rewrite R_end. unfold st, top_of. cbn [x_stack h_toks]. rewrite app_nil_r, Hs. reflexivity.
+Qed.
+
 (* ---------- MacroExpander(platform).expand(tokens) ---------- *)
 Definition E_all (l : list tok) : list tok := flat_map (E (List.length names) [None]) l.
 Definition EI_all (l : list tok) : list tok := EI (List.length names) [None] l.
